@@ -22,12 +22,47 @@ def fresh_dir(base: pathlib.Path, tag: str) -> pathlib.Path:
     return p
 
 
-def load_text(text: str, base: pathlib.Path) -> Tuple[Optional[Any], Optional[Any], Optional[str]]:
+FILE_VARIANTS = ["utf-8-sig", "crlf", "cr", "utf-16", "latin-1", "nul-appended", "bom-in-the-middle", "form-feed-first"]
+
+
+def file_bytes(text: str, variant: Optional[str]) -> bytes:
+    """The bytes of a model file holding ``text`` under a file-level variant (None: plain UTF-8)."""
+    if variant is None:
+        return text.encode("utf-8")
+    if variant == "utf-8-sig":
+        return b"\xef\xbb\xbf" + text.encode("utf-8")
+    if variant == "crlf":
+        return text.replace("\n", "\r\n").encode("utf-8")
+    if variant == "cr":
+        return text.replace("\n", "\r").encode("utf-8")
+    if variant == "utf-16":
+        return text.encode("utf-16")
+    if variant == "latin-1":
+        return text.encode("latin-1", "replace") + b"\n# caf\xe9\n"
+    if variant == "nul-appended":
+        return text.encode("utf-8") + b"\x00\n"
+    if variant == "bom-in-the-middle":
+        lines = text.split("\n")
+        k = len(lines) // 2
+        return "\n".join(lines[:k] + ["\ufeff" + lines[k]] + lines[k + 1:]).encode("utf-8")
+    if variant == "form-feed-first":
+        return b"\x0c" + text.encode("utf-8")
+    raise ValueError(variant)
+
+
+def write_model(mp: pathlib.Path, text: Any) -> None:
+    if isinstance(text, bytes):
+        mp.write_bytes(text)
+    else:
+        mp.write_text(text, encoding="utf-8")
+
+
+def load_text(text: Any, base: pathlib.Path) -> Tuple[Optional[Any], Optional[Any], Optional[str]]:
     """Run the front end on ``text``: (symbol_table, atok, error). Exceptions propagate."""
     from aas_core_codegen import run
 
     mp = base / f"meta_model_{os.getpid()}.py"
-    mp.write_text(text, encoding="utf-8")
+    write_model(mp, text)
     res, err = run.load_model(mp)
     if err is not None:
         return None, None, err
@@ -86,7 +121,7 @@ def execute(
 
 
 def generate(
-    text: str,
+    text: Any,
     target: str,
     base: pathlib.Path,
     extra_snippets: Optional[Dict[str, str]] = None,
@@ -95,7 +130,7 @@ def generate(
     """Write model + snippets into a fresh dir and run one target."""
     d = fresh_dir(base, f"gen-{target}")
     mp = d / "meta_model.py"
-    mp.write_text(text, encoding="utf-8")
+    write_model(mp, text)
     sn = dict(BASE_SNIPPETS[target])
     if extra_snippets:
         sn.update(extra_snippets)
